@@ -685,26 +685,13 @@ impl TreeSink for ModelDom {
             );
             return;
         }
+        // Children are moved as they are (no text merging: the tree builder only
+        // re-parents into freshly created, empty elements).
         let kids = std::mem::take(&mut self.nodes.borrow_mut()[*node].children);
+        let mut nodes = self.nodes.borrow_mut();
         for k in kids {
-            // adjacent text merging as in append
-            let text = match &self.nodes.borrow()[k].kind {
-                MKind::Text(t) => Some(t.clone()),
-                _ => None,
-            };
-            self.nodes.borrow_mut()[k].parent = None;
-            let last_is_text = {
-                let nodes = self.nodes.borrow();
-                nodes[*new_parent].children.last().map(|l| matches!(nodes[*l].kind, MKind::Text(_))).unwrap_or(false)
-            };
-            match text {
-                Some(t) if last_is_text => self.append_text(*new_parent, &t),
-                _ => {
-                    let mut nodes = self.nodes.borrow_mut();
-                    nodes[k].parent = Some(*new_parent);
-                    nodes[*new_parent].children.push(k);
-                },
-            }
+            nodes[k].parent = Some(*new_parent);
+            nodes[*new_parent].children.push(k);
         }
     }
 
@@ -798,4 +785,115 @@ impl<'a> TreeView for ModelView<'a> {
 
 pub fn model_canon(dom: &ModelDom, root: Id, o: crate::sinks::canon::CanonOpts) -> String {
     crate::sinks::canon::canon(&ModelView(dom), &root, o)
+}
+
+// ---------------------------------------------------------------------------
+// "maybe clone an option into selectedcontent" (model side, used by C20)
+
+impl ModelDom {
+    fn html_local(&self, h: Id) -> Option<String> {
+        match &self.nodes.borrow()[h].kind {
+            MKind::Element { name, .. } if &*name.ns == "http://www.w3.org/1999/xhtml" => Some(name.local.to_string()),
+            _ => None,
+        }
+    }
+
+    fn has_attr(&self, h: Id, local: &str) -> bool {
+        match &self.nodes.borrow()[h].kind {
+            MKind::Element { attrs, .. } => attrs.iter().any(|a| &*a.name.local == local),
+            _ => false,
+        }
+    }
+
+    fn deep_clone(&self, h: Id, new_parent: Option<Id>) -> Id {
+        // iterative deep copy
+        let root_kind = self.nodes.borrow()[h].kind.clone();
+        let root = self.new_node(root_kind);
+        self.nodes.borrow_mut()[root].parent = new_parent;
+        let mut work = vec![(h, root)];
+        while let Some((src, dst)) = work.pop() {
+            let (kids, tmpl) = {
+                let n = self.nodes.borrow();
+                (n[src].children.clone(), n[src].tmpl)
+            };
+            for k in kids {
+                let kind = self.nodes.borrow()[k].kind.clone();
+                let c = self.new_node(kind);
+                {
+                    let mut n = self.nodes.borrow_mut();
+                    n[c].parent = Some(dst);
+                    n[dst].children.push(c);
+                }
+                work.push((k, c));
+            }
+            if let Some(t) = tmpl {
+                let frag = self.new_node(MKind::Fragment);
+                {
+                    let mut n = self.nodes.borrow_mut();
+                    n[dst].tmpl = Some(frag);
+                    n[frag].host = Some(dst);
+                }
+                work.push((t, frag));
+            }
+        }
+        root
+    }
+
+    /// The algorithm of the standard (without the 'disabled' refinement):
+    /// nearest ancestor select of the option; option carries `selected`; the
+    /// select is not `multiple`; first selectedcontent descendant in tree
+    /// order; replace its children by deep copies of the option's children.
+    /// Returns true when a clone happened.
+    pub fn clone_option_into_selectedcontent(&self, option: Id) -> bool {
+        if self.html_local(option).as_deref() != Some("option") {
+            return false;
+        }
+        // nearest ancestor select
+        let mut seen_optgroup = false;
+        let mut cur = self.nodes.borrow()[option].parent;
+        let mut select = None;
+        while let Some(c) = cur {
+            match self.html_local(c).as_deref() {
+                Some("datalist") | Some("hr") | Some("option") => return false,
+                Some("optgroup") => {
+                    if seen_optgroup {
+                        return false;
+                    }
+                    seen_optgroup = true;
+                },
+                Some("select") => {
+                    select = Some(c);
+                    break;
+                },
+                _ => {},
+            }
+            cur = self.nodes.borrow()[c].parent;
+        }
+        let Some(select) = select else { return false };
+        if !self.has_attr(option, "selected") {
+            return false;
+        }
+        if self.has_attr(select, "multiple") {
+            return false;
+        }
+        // first selectedcontent descendant in tree order
+        let mut stack: Vec<Id> = self.nodes.borrow()[select].children.iter().rev().cloned().collect();
+        let mut target = None;
+        while let Some(n) = stack.pop() {
+            if self.html_local(n).as_deref() == Some("selectedcontent") {
+                target = Some(n);
+                break;
+            }
+            let kids: Vec<Id> = self.nodes.borrow()[n].children.iter().rev().cloned().collect();
+            stack.extend(kids);
+        }
+        let Some(target) = target else { return false };
+        let src_kids = self.nodes.borrow()[option].children.clone();
+        let clones: Vec<Id> = src_kids.iter().map(|k| self.deep_clone(*k, Some(target))).collect();
+        let old = std::mem::replace(&mut self.nodes.borrow_mut()[target].children, clones);
+        for o in old {
+            self.nodes.borrow_mut()[o].parent = None;
+        }
+        true
+    }
 }
